@@ -71,7 +71,7 @@ type ClientSpec struct {
 	Ops       []Op               `json:"ops"`
 	NotBefore int                `json:"not_before,omitempty"`
 	WFault    []world.WriteFault `json:"wfault,omitempty"`
-	Real      bool               `json:"real,omitempty"` // ops run through tacquito.Client
+	Real      bool               `json:"real,omitempty"`      // ops run through tacquito.Client
 	ReusePkt  bool               `json:"reuse_pkt,omitempty"` // Real: the caller refills one packet object for every request
 	// SrvScript: for Real clients talking to a model server: replies the model server
 	// writes, one list per request received.
@@ -283,6 +283,19 @@ func (r *Rand) Intn(n int) int {
 		return 0
 	}
 	return int(r.U64() % uint64(n))
+}
+
+// Perm returns a permutation of 0..n-1.
+func (r *Rand) Perm(n int) []int {
+	out := make([]int, n)
+	for i := range out {
+		out[i] = i
+	}
+	for i := n - 1; i > 0; i-- {
+		j := r.Intn(i + 1)
+		out[i], out[j] = out[j], out[i]
+	}
+	return out
 }
 func (r *Rand) Bool() bool        { return r.U64()&1 == 1 }
 func (r *Rand) Chance(p int) bool { return r.Intn(100) < p } // p percent
